@@ -23,7 +23,8 @@ from ..runner import CaseResult, digest
 from .c08 import abs_key
 
 ID = "C07"
-CALLS = [("sweep", ("a",)), ("link", ("a", "b")), ("mark", ("w",)), ("bump", ()), ("sweep", ("b",))]
+CALLS = [("sweep", ("a",)), ("link", ("a", "b")), ("mark", ("w",)), ("bump", ()), ("sweep", ("b",)), ("gate", ()),
+         ("mark", ("d",))]
 BFS_CALLS = 4  # the history alphabet uses the first four; the fifth (a second quantified call) is for the thread pairs
 FLAGS = [{}, {"skip_validation": True}, {"allow_inapplicable_actions": True}]
 RULE = ("histories: cond mini-domain (forall precondition, forall-when / when / numeric effects, constant); events: "
@@ -70,6 +71,12 @@ def cases(tier):
             for chunk in range(8):
                 yield {"kind": "threads", "a": a, "b": list(b), "first": first, "chunk": chunk, "chunks": 8,
                        "bound": 1}
+    # three-level type tree; the deepest type is first asked about inside the threads
+    for a, b in [(5, ("is_applicable", 5)), (5, ("apply", 6))]:
+        for first in (0, 1):
+            for chunk in range(8):
+                yield {"kind": "threads", "a": a, "b": list(b), "first": first, "chunk": chunk, "chunks": 8,
+                       "bound": 1, "deep": True}
     if tier != "quick":
         for pi, (a, b) in enumerate(pairs[:2]):
             for chunk in range(16):
@@ -90,9 +97,21 @@ def default_types_digest():
     return repr((sorted(Domain().types.keys()), ObjectType.name, ObjectType.parent))
 
 
+def deep_variant(dt, pt):
+    """the cond mini-domain with one more level in the type tree and an object of the deepest type that occurs in no
+    fact: the first query about its type is made by whoever uses it first (for the thread pairs: inside the threads),
+    and `gate` (forall over the parent type) is inapplicable only because of that object."""
+    dt2 = dt.replace("(:types t1 t3 - object t2 - t1)", "(:types t1 t3 - object t2 - t1 t4 - t3)")
+    pt2 = pt.replace("w - t3)", "w - t3 d - t4)").replace("(= (cnt) 0)", "(= (cnt) 0) (m w)")
+    assert dt2 != dt and pt2.count("d - t4") == 1 and pt2.count("(m w)") == 1
+    return dt2, pt2
+
+
 class WorldC07:
-    def __init__(self):
+    def __init__(self, deep=False):
         dt, pt = md.ALL["cond"]
+        if deep:
+            dt, pt = deep_variant(dt, pt)
         self.second = parse_domain(OTHER_T)
         self.second_digest = dom_digest(self.second)
         self.defaults = default_types_digest()
@@ -372,6 +391,10 @@ def check_bfs(r, case):
 # threads
 
 
+def thread_world(case):
+    return WorldC07(deep=bool(case.get("deep")))
+
+
 def thread_fns(w, a, b):
     name, args = CALLS[a]
     s0 = w.states[0]
@@ -400,9 +423,9 @@ def thread_fns(w, a, b):
 
 def check_threads(r, case):
     from .. import threadsched
-    w = WorldC07()
+    w = thread_world(case)
     fns = thread_fns(w, case["a"], case["b"])
-    alone = [("ok", f()) for f in thread_fns(WorldC07(), case["a"], case["b"])]
+    alone = [("ok", f()) for f in thread_fns(thread_world(case), case["a"], case["b"])]
     first = case["first"]
     res0, steps, total = threadsched.run(fns, [], first=first)
     r.count("schedules")
@@ -426,7 +449,7 @@ def check_threads(r, case):
                     scheds.append([(k1, other), (k1 + k2 + 1, first)])
                 idx += 1
     for sch in scheds:
-        w2 = WorldC07()
+        w2 = thread_world(case)
         res, st2, tot2 = threadsched.run(thread_fns(w2, case["a"], case["b"]), sch, first=first)
         r.count("schedules")
         r.count("transitions", tot2)
